@@ -567,3 +567,339 @@ def double_buffer(repo, rep, rule):
                          "a bin relabelled earlier in the sweep is seen as labelled by later bins, so the result depends on scan order "
                          "and changes under a circular shift of the direction axis", anchor="pt_fld:reassignment-snapshot")
     return found
+
+
+# ---- R-C04-8: the immersion's decisions, by exhaustive evaluation over the finite label classes ------------------------
+
+class _Break(Exception):
+    pass
+
+
+class _DefEnv(dict):
+    """Environment with a default for variables that are not one of the named markers (used where the only other scalar is the
+    running label counter)."""
+
+    def __init__(self, d, default):
+        super().__init__(d)
+        self.default = default
+
+    def __contains__(self, k):
+        return True
+
+    def __missing__(self, k):
+        return self.default
+
+
+def _ceval(t, env, arr):
+    k = t[0]
+    if k == "int":
+        return t[1]
+    if k == "float":
+        return t[1]
+    if k == "var":
+        if t[1] not in env:
+            raise AnalysisError(f"immersion: variable '{t[1]}' has no abstract value")
+        return env[t[1]]
+    if k == "idx":
+        key = (show(t[1]), show(t[2]))
+        if key not in arr:
+            raise AnalysisError(f"immersion: array element {key[0]}[{key[1]}] has no abstract value")
+        return arr[key]
+    if k == "un":
+        v = _ceval(t[2], env, arr)
+        if t[1] == "-":
+            return -v
+        if t[1] == "!":
+            return int(not v)
+        if t[1] == "+":
+            return v
+        raise AnalysisError(f"immersion: unary {t[1]} not understood")
+    if k == "bin":
+        op = t[1]
+        if op == "&&":
+            return int(bool(_ceval(t[2], env, arr)) and bool(_ceval(t[3], env, arr)))
+        if op == "||":
+            return int(bool(_ceval(t[2], env, arr)) or bool(_ceval(t[3], env, arr)))
+        a, b = _ceval(t[2], env, arr), _ceval(t[3], env, arr)
+        ops = {"+": lambda: a + b, "-": lambda: a - b, "*": lambda: a * b, "<": lambda: int(a < b), "<=": lambda: int(a <= b),
+               ">": lambda: int(a > b), ">=": lambda: int(a >= b), "==": lambda: int(a == b), "!=": lambda: int(a != b)}
+        if op not in ops:
+            raise AnalysisError(f"immersion: operator {op} not understood")
+        return ops[op]()
+    raise AnalysisError(f"immersion: expression kind {k} not understood")
+
+
+def _cexec(cf, n, env, arr, out):
+    k = n.get("kind")
+    if k == "CompoundStmt":
+        for c in n.get("inner", []):
+            _cexec(cf, c, env, arr, out)
+    elif k == "IfStmt":
+        inner = n["inner"]
+        if _ceval(ex(inner[0]), env, arr):
+            _cexec(cf, inner[1], env, arr, out)
+        elif len(inner) > 2:
+            _cexec(cf, inner[2], env, arr, out)
+    elif k == "BreakStmt":
+        raise _Break()
+    elif k == "NullStmt":
+        pass
+    elif is_assign(n):
+        lhs, rhs = ex(n["inner"][0]), ex(n["inner"][1])
+        if rhs[0] == "call":
+            fn = show(rhs[1])
+            if fn == "fifo_add":
+                out.setdefault("enq", []).append(show(rhs[2][2]))
+                return
+            raise AnalysisError(f"immersion: call {fn} not understood")
+        v = _ceval(rhs, env, arr)
+        if lhs[0] == "var":
+            env[lhs[1]] = v
+        elif lhs[0] == "idx":
+            arr[(show(lhs[1]), show(lhs[2]))] = v
+        else:
+            raise AnalysisError("immersion: assignment target not understood")
+    elif k == "UnaryOperator" and n.get("opcode") in ("++", "--"):
+        t = ex(n["inner"][0])
+        if t[0] == "var":
+            env[t[1]] = env.get(t[1], 0) + (1 if n["opcode"] == "++" else -1)
+    elif k == "CallExpr":
+        t = ex(n)
+        if show(t[1]) == "fifo_add":
+            out.setdefault("enq", []).append(show(t[2][2]))
+        else:
+            raise AnalysisError(f"immersion: call {show(t[1])} not understood")
+    else:
+        raise AnalysisError(f"immersion: statement kind {k} not understood: {cf.text(n)[:50]}")
+
+
+def immersion_decisions(repo, rep, rule):
+    """Vincent & Soille's immersion, decision by decision.  The label of a bin only ever takes one of five classes (MASK, INIT,
+    WSHED, label A, another label B) and the algorithm touches labels only through comparisons, so each decision's code is evaluated
+    over ALL combinations of classes (a finite set of orderings) and compared with the reference transition of the published
+    algorithm.  Robust to renaming, re-nesting, De Morgan and `>= 0` for `> 0 || == 0`; it fires when some combination of classes is
+    treated differently - which is exactly when a basin is split, merged or orphaned for some spectrum."""
+    cf = core(repo)
+    fn = cf.func("pt_fld")
+    # true constants: scalars assigned exactly once, from an integer constant, and never incremented
+    nassign, first = {}, {}
+    for n in cf.walk(cf.body("pt_fld")):
+        if is_assign(n):
+            l, r = ex(n["inner"][0]), ex(n["inner"][1])
+            if l[0] == "var":
+                nassign[l[1]] = nassign.get(l[1], 0) + 1
+                first.setdefault(l[1], r)
+        elif n.get("kind") == "UnaryOperator" and n.get("opcode") in ("++", "--"):
+            t_ = ex(n["inner"][0])
+            if t_[0] == "var":
+                nassign[t_[1]] = nassign.get(t_[1], 0) + 5
+    from_call = set()
+    for n in cf.walk(cf.body("pt_fld")):
+        if is_assign(n):
+            l, r = ex(n["inner"][0]), ex(n["inner"][1])
+            if l[0] == "var" and r[0] == "call":
+                from_call.add(l[1])
+    CONST = {}
+    for v, k_ in nassign.items():
+        if k_ == 1:
+            try:
+                CONST[v] = _ceval(first[v], {}, {})
+            except AnalysisError:
+                pass
+    # roles by use: MASK = what step 1a stores into the bin's label; INIT = what the initial fill stores; WSHED = 0
+    mask_vals, init_vals = set(), set()
+    for n in cf.walk(cf.body("pt_fld")):
+        if is_assign(n):
+            l, r = ex(n["inner"][0]), ex(n["inner"][1])
+            if l[0] == "idx" and l[1] == ("var", "imo") and r[0] in ("var", "int", "un"):
+                try:
+                    v_ = _ceval(r, CONST, {})
+                except AnalysisError:
+                    continue
+                loops_ = enclosing_loops(cf, n)
+                if loops_ and loops_[0][1] is not None and l[2] == ("var", loops_[0][1][0]):
+                    init_vals.add(v_)          # imo[i] = INIT inside a counted loop over i
+                elif v_ < 0:
+                    mask_vals.add(v_)
+    mask_vals -= init_vals
+    if len(mask_vals) != 1 or len(init_vals) != 1:
+        raise AnalysisError(f"pt_fld: MASK / INIT markers not identified (mask candidates {sorted(mask_vals)}, init {sorted(init_vals)})")
+    MASK, INIT, WSHED = next(iter(mask_vals)), next(iter(init_vals)), 0
+    if not (MASK < 0 and INIT < 0 and MASK != INIT):
+        rep.fail(rule, SPECPART_C, cf.line(fn), "pt_fld", f"mask={MASK} init={INIT}",
+                 "labels > 0, the watershed marker 0 and two distinct negative markers are what every comparison in the immersion relies on")
+        return
+    LA, LB = 1, 2
+    loops = []
+    for n in cf.walk(cf.body("pt_fld")):
+        if n.get("kind") == "ForStmt":
+            cl = counted_loop(cf, n)
+            if cl is not None and cl[2][0] == "idx" and cl[2][1] == ("var", "neigh"):
+                loops.append((n, cl))
+    loops.sort(key=lambda x: cf.line(x[0]))
+    if len(loops) != 4:
+        raise AnalysisError(f"pt_fld: expected 4 loops over a bin's neighbours (1a, 1b, 1c, 2), found {len(loops)}")
+
+    def prep(loop, cl):
+        """(neighbour variable or None, statements after its definition, the index-expression string of the neighbour)."""
+        body = for_parts(loop)[3]
+        sts = stmts(body) if body.get("kind") == "CompoundStmt" else [body]
+        nb = None
+        if sts and is_assign(sts[0]):
+            l, r = ex(sts[0]["inner"][0]), ex(sts[0]["inner"][1])
+            if l[0] == "var" and r[0] == "idx" and r[1] == ("var", "neigh"):
+                nb = l[1]
+                sts = sts[1:]
+        return nb, sts
+
+    def run(sts, env, arr):
+        out = {}
+        try:
+            for s in sts:
+                _cexec(cf, s, env, arr, out)
+        except _Break:
+            out["break"] = True
+        return out
+    ncomb = 0
+    # ---- 1a: a bin of the current level is queued iff some neighbour is already labelled or on a watershed line
+    (l1a, c1a), (l1b, c1b), (l1c, c1c), (l2, c2) = loops
+    P = show(c1a[2][2])            # '8 + 9 * ip' -> find the bin variable
+    pvar = [x for x in ("ip", "ipp", "jl") if x in P]
+    nb, sts = prep(l1a, c1a)
+    if nb is None:
+        raise AnalysisError("pt_fld 1a: neighbour variable not found")
+    p_a = [v for v in _vars(c1a[2][2]) if v != c1a[0]][0]
+    for b in (MASK, INIT, WSHED, LA, LB):
+        ncomb += 1
+        arr = {("imo", nb): b, ("imd", p_a): 0}
+        out = run(sts, dict(CONST, **{nb: 20, p_a: 10}), arr)
+        want = b >= 0
+        got = p_a in out.get("enq", [])
+        if got != want:
+            rep.fail(rule, SPECPART_C, cf.line(l1a), "pt_fld", f"step 1a, neighbour label class {_cls(b, MASK, INIT)}",
+                     f"a bin of the current level with a neighbour that is {_cls(b, MASK, INIT)} must {'be' if want else 'NOT be'} put in the queue "
+                     "(neighbours that are already labelled OR on a watershed line count as flooded): otherwise the bin is missed by the "
+                     "flooding and becomes a spurious basin of its own (or a real minimum is swallowed)", anchor="immersion:1a-seeding")
+            break
+    else:
+        rep.ok(rule, f"{SPECPART_C}:{cf.line(l1a)} pt_fld", "step 1a over 5 neighbour classes", "queued iff a neighbour is labelled or watershed")
+    # ---- 1b: propagation
+    nb, sts = prep(l1b, c1b)
+    p_b = [v for v in _vars(c1b[2][2]) if v != c1b[0]][0]
+    free = sorted({v for s_ in sts for x in cf.walk(s_) if x.get("kind") == "DeclRefExpr" for v in [x["referencedDecl"]["name"]]
+                   if v not in CONST and v not in from_call and v not in (nb, p_b, "imo", "imd", "neigh", "fifo_add") and nassign.get(v, 0) >= 5})
+    if len(free) != 1:
+        raise AnalysisError(f"pt_fld 1b: the current-distance counter was not identified (candidates {free})")
+    DIST = free[0]
+    bad = None
+    for a in (MASK, WSHED, LA, LB):
+        for b in (MASK, INIT, WSHED, LA, LB):
+            for d in (0, 1, 2, 3):
+                for c in (1, 2):
+                    ncomb += 1
+                    arr = {("imo", p_b): a, ("imo", nb): b, ("imd", nb): d}
+                    out = run(sts, _DefEnv(dict(CONST, **{DIST: c, nb: 20, p_b: 10}), 0), arr)
+                    a2, d2, enq = a, d, False
+                    if d < c and (b > 0 or b == WSHED):
+                        if b > 0:
+                            if a in (MASK, WSHED):
+                                a2 = b
+                            elif a != b:
+                                a2 = WSHED
+                        elif a == MASK:
+                            a2 = WSHED
+                    elif b == MASK and d == 0:
+                        d2, enq = c + 1, True
+                    got = (arr[("imo", p_b)], arr[("imd", nb)], nb in out.get("enq", []))
+                    if got != (a2, d2, enq) and bad is None:
+                        bad = (a, b, d, c, got, (a2, d2, enq))
+    if bad:
+        a, b, d, c, got, want = bad
+        rep.fail(rule, SPECPART_C, cf.line(l1b), "pt_fld",
+                 f"step 1b: bin {_cls(a, MASK, INIT)}, neighbour {_cls(b, MASK, INIT)}, dist(neighbour)={d}, current dist={c}",
+                 f"the code gives (label, dist(neighbour), queued) = {got}, Vincent-Soille's flooding gives {want}: a bin reached from two basins "
+                 "must become a watershed bin, a bin reached from one basin joins it, an unflooded neighbour is queued once",
+                 anchor="immersion:1b-propagation")
+    else:
+        rep.ok(rule, f"{SPECPART_C}:{cf.line(l1b)} pt_fld", "step 1b over 4 x 5 x 4 x 2 label / distance classes", "identical to the reference transition")
+    # ---- 1c: new basins are exactly the bins still flagged MASK, and the flood from them takes MASK bins only
+    conds = []
+    par = l1c
+    for _ in range(6):
+        par = par.get("_p")
+        if par is None:
+            break
+        if par.get("kind") == "IfStmt":
+            conds.append(par)
+    ok1c = True
+    for cnd in conds[-1:]:
+        t = ex(cnd["inner"][0])
+        for a in (MASK, INIT, WSHED, LA):
+            ncomb += 1
+            env = dict(CONST)
+            arr = {("imo", v): a for v in _vars(t) if v not in CONST and v != "imo"}
+            if bool(_ceval(t, env, arr)) != (a == MASK):
+                ok1c = False
+    nb, sts = prep(l1c, c1c)
+    for b in (MASK, INIT, WSHED, LA, LB):
+        ncomb += 1
+        arr = {("imo", nb): b}
+        env1c = _DefEnv(dict(CONST, **{nb: 30}), LB)     # the running label counter, whatever it is called
+        out = run(sts, env1c, arr)
+        if (nb in out.get("enq", [])) != (b == MASK) or (b == MASK and arr[("imo", nb)] != LB) or (b != MASK and arr[("imo", nb)] != b):
+            ok1c = False
+    if ok1c and conds:
+        rep.ok(rule, f"{SPECPART_C}:{cf.line(l1c)} pt_fld", "step 1c", "a new label starts at each bin still flagged, and floods flagged neighbours only")
+    else:
+        rep.fail(rule, SPECPART_C, cf.line(l1c), "pt_fld", "step 1c",
+                 "new basins must start exactly at bins still carrying the MASK flag and spread to MASK neighbours only", anchor="immersion:1c-new-basins")
+    # ---- 2: a watershed bin takes the label of a LABELLED neighbour with the closest value
+    body2 = for_parts(l2)[3]
+    ifs = [n for n in cf.walk(body2) if n.get("kind") == "IfStmt"]
+    if len(ifs) != 1:
+        raise AnalysisError("pt_fld step 2: candidate test not found")
+    t = ex(ifs[0]["inner"][0])
+    lab_reads = [x for x in _subtrees(t) if x[0] == "idx" and x[1] == ("var", "imo") or (x[0] == "idx" and x[1] == ("var", "imd"))]
+    ok2 = bool(lab_reads)
+    le_ = [x for x in _subtrees(t) if x[0] == "bin" and x[1] in ("<=", ">=") and x[2][0] == "var" and x[3][0] == "var"]
+    if len(le_) != 1:
+        raise AnalysisError("pt_fld step 2: closeness comparison not found")
+    dv, ev = (le_[0][2][1], le_[0][3][1]) if le_[0][1] == "<=" else (le_[0][3][1], le_[0][2][1])
+    for b in (WSHED, LA, LB):
+        for (df, e1) in ((1, 2), (2, 2), (3, 2)):
+            ncomb += 1
+            arr = {(show(x[1]), show(x[2])): b for x in lab_reads}
+            got = bool(_ceval(t, dict(CONST, **{dv: df, ev: e1}), arr))
+            if got != (b != WSHED and df <= e1):
+                ok2 = False
+    if ok2:
+        rep.ok(rule, f"{SPECPART_C}:{cf.line(l2)} pt_fld", cf.text(ifs[0]["inner"][0])[:70], "candidate = labelled neighbour not farther in value than the best so far")
+    else:
+        rep.fail(rule, SPECPART_C, cf.line(ifs[0]), "pt_fld", cf.text(ifs[0]["inner"][0])[:80],
+                 "a watershed-line bin may only take the label of a neighbour that HAS a label, choosing the closest value", anchor="immersion:2-candidate")
+    return ncomb
+
+
+def _cls(v, MASK, INIT):
+    return {MASK: "still flagged (MASK)", INIT: "not yet reached (INIT)", 0: "on a watershed line"}.get(v, f"labelled ({'A' if v == 1 else 'B'})")
+
+
+def _vars(t):
+    out = []
+    if isinstance(t, tuple):
+        if t[0] == "var":
+            out.append(t[1])
+        for x in t[1:]:
+            if isinstance(x, tuple):
+                out += _vars(x)
+    return out
+
+
+def _subtrees(t):
+    out = []
+    if isinstance(t, tuple):
+        out.append(t)
+        for x in t[1:]:
+            if isinstance(x, tuple):
+                out += _subtrees(x)
+    return out
